@@ -91,7 +91,9 @@ Judge(r, k, s, bad) ==
            b5 == IF ob.raised = "" /\ o.op = "newsolver" /\ ~ob.meaning_ok THEN {"C15:solver-construction-changes-the-problem"} ELSE {}
            b6 == IF ob.raised = "" /\ o.op \in {"step", "drain"} /\ e.ends /\ ob.ended /\ ob.stats # RefSols[e.t][e.c].stats
                  THEN {"C15:statistics-differ-from-reference-run"} ELSE {}
-       IN Judge(r, k + 1, Apply(s, o), bad \cup b1 \cup b2 \cup b3 \cup b4 \cup b5 \cup b6)
+           \* the caller's own configuration objects (decision domains, cost tables) are reused for later solvers
+           b7 == IF ob.raised = "" /\ o.op = "newsolver" /\ ~ob.args_ok THEN {"C15:solver-construction-changes-the-caller's-configuration"} ELSE {}
+       IN Judge(r, k + 1, Apply(s, o), bad \cup b1 \cup b2 \cup b3 \cup b4 \cup b5 \cup b6 \cup b7)
 JInit == i = 1 /\ st = St0 /\ hist = << >>
 JNext == /\ i <= Len(Runs)
          /\ \A c \in Judge(Runs[i], 1, St0, {}) : PrintT(<<"VERDICT", Runs[i].rid, c>>)
